@@ -1,6 +1,7 @@
 package main
 
 import (
+	"encoding/binary"
 	"encoding/json"
 	"fmt"
 	"math"
@@ -70,7 +71,7 @@ type WorkerOut struct {
 	Events     int64             `json:"events"`
 	Skipped    int64             `json:"skipped"`
 	Steps      int64             `json:"steps"`
-	Hashes     []uint64          `json:"hashes"` // event-log hashes of non-trivial runs (distinct within the worker)
+	Hashes     []uint64          `json:"-"` // event-log hashes of non-trivial runs (distinct within the worker); binary side file <out>.hashes
 	Faults     map[string]int    `json:"faults"`
 	Known      map[string]int    `json:"known"`
 	Aborted    map[string]int    `json:"aborted"`
@@ -90,6 +91,13 @@ type WorkerOut struct {
 }
 
 func writeOut(o *WorkerOut) {
+	hb := make([]byte, 8*len(o.Hashes))
+	for i, h := range o.Hashes {
+		binary.LittleEndian.PutUint64(hb[8*i:], h)
+	}
+	if err := os.WriteFile(*fOut+".hashes", hb, 0o644); err != nil {
+		infra("write %s.hashes: %v", *fOut, err)
+	}
 	b, err := json.Marshal(o)
 	if err != nil {
 		infra("marshal: %v", err)
@@ -97,6 +105,29 @@ func writeOut(o *WorkerOut) {
 	if err := os.WriteFile(*fOut, b, 0o644); err != nil {
 		infra("write %s: %v", *fOut, err)
 	}
+}
+
+func dedupe(h []uint64) []uint64 {
+	sort.Slice(h, func(i, j int) bool { return h[i] < h[j] })
+	o := h[:0]
+	for i, x := range h {
+		if i == 0 || x != h[i-1] {
+			o = append(o, x)
+		}
+	}
+	return o
+}
+
+func readHashes(path string) []uint64 {
+	b, err := os.ReadFile(path)
+	if err != nil {
+		infra("%v", err)
+	}
+	h := make([]uint64, len(b)/8)
+	for i := range h {
+		h[i] = binary.LittleEndian.Uint64(b[8*i:])
+	}
+	return h
 }
 
 func planTrace(pl *Plan) []string {
@@ -124,7 +155,7 @@ func worldWorker() {
 	}
 	seed := masterSeed()
 	out := &WorkerOut{Prop: prop, Faults: map[string]int{}, Known: map[string]int{}, Aborted: map[string]int{}}
-	seen := map[uint64]struct{}{}
+	var hashes []uint64
 	states := newHLL()
 	t0 := time.Now()
 	for i := *fOffset; i < *fRuns; i += *fStride {
@@ -154,12 +185,10 @@ func worldWorker() {
 		states.Add(res.Hash)
 		out.Digest = out.Digest*1099511628211 ^ res.Hash
 		if res.NonTriv {
-			if _, ok := seen[res.Hash]; !ok {
-				seen[res.Hash] = struct{}{}
-				if len(out.Samples) < 3 && len(pl.Ops) >= 3 && len(pl.Ops) <= 8 {
-					s, _ := json.Marshal(map[string]interface{}{"run": i, "trace": planTrace(&pl)})
-					out.Samples = append(out.Samples, s)
-				}
+			hashes = append(hashes, res.Hash)
+			if len(out.Samples) < 3 && len(pl.Ops) >= 3 && len(pl.Ops) <= 8 {
+				s, _ := json.Marshal(map[string]interface{}{"run": i, "trace": planTrace(&pl)})
+				out.Samples = append(out.Samples, s)
 			}
 		}
 		if res.Viol != nil {
@@ -176,10 +205,7 @@ func worldWorker() {
 			out.Redone++
 		}
 	}
-	for h := range seen {
-		out.Hashes = append(out.Hashes, h)
-	}
-	sort.Slice(out.Hashes, func(i, j int) bool { return out.Hashes[i] < out.Hashes[j] })
+	out.Hashes = dedupe(hashes)
 	out.Hits = rt.Hits
 	out.States = states.R
 	out.WallS = time.Since(t0).Seconds()
@@ -190,8 +216,8 @@ func worldWorker() {
 // ---------------------------------------------------------------- drive
 
 var tierRuns = map[string]map[string]int{
-	"quick":    {"C02": 400_000, "C03": 400_000, "C04": 500_000, "C05": 600_000, "C11": 400_000, "C12": 400_000, "C13": 300_000, "C19": 600_000},
-	"thorough": {"C02": 8_000_000, "C03": 8_000_000, "C04": 10_000_000, "C05": 12_000_000, "C11": 8_000_000, "C12": 8_000_000, "C13": 6_000_000, "C19": 12_000_000},
+	"quick":    {"C02": 1_000_000, "C03": 1_000_000, "C04": 1_500_000, "C05": 1_500_000, "C11": 600_000, "C12": 1_000_000, "C13": 800_000, "C19": 1_500_000},
+	"thorough": {"C02": 40_000_000, "C03": 40_000_000, "C04": 60_000_000, "C05": 60_000_000, "C11": 20_000_000, "C12": 40_000_000, "C13": 40_000_000, "C19": 60_000_000},
 }
 
 var propAnchors = map[string][]string{
@@ -258,8 +284,10 @@ func runChildren(bin string, prop string, n, workers int, tmp string, tag string
 		if err := json.Unmarshal(data, &o); err != nil {
 			infra("worker %d result: %v", i, err)
 		}
+		o.Hashes = readHashes(c.out + ".hashes")
 		outs = append(outs, &o)
 		os.Remove(c.out)
+		os.Remove(c.out + ".hashes")
 		os.Remove(c.out + ".log")
 	}
 	return outs
@@ -332,12 +360,7 @@ func merge(outs []*WorkerOut) *Merged {
 		}
 		m.ListViaIt = m.ListViaIt || o.ListViaIt
 	}
-	sort.Slice(all, func(i, j int) bool { return all[i] < all[j] })
-	for i, h := range all {
-		if i == 0 || h != all[i-1] {
-			m.Distinct++
-		}
-	}
+	m.Distinct = len(dedupe(all))
 	if len(m.Samples) > 4 {
 		m.Samples = m.Samples[:4]
 	}
@@ -376,6 +399,9 @@ type Evidence struct {
 
 func writeEvidence(ev *Evidence) {
 	dir := filepath.Join(*fVerif, "evidence")
+	if d := os.Getenv("VERIF_EVIDENCE_DIR"); d != "" {
+		dir = d // sensitivity runs against modified trees must not overwrite the real evidence
+	}
 	_ = os.MkdirAll(dir, 0o755)
 	b, err := json.MarshalIndent(ev, "", " ")
 	if err != nil {
